@@ -18,9 +18,12 @@ struct Case<'a> {
     dport: u16,
     carrier: String,
     idx: usize,
+    /// a later message on a connection already identified as ONC-RPC (no signature decision)
+    later: bool,
 }
 
-fn judge(c: &Case, sigs: &[sig::Sig], t: &mut Tally, v: &mut Vec<Violation>) {
+/// Returns true if the message was a call the statement speaks about (judged).
+fn judge(c: &Case, sigs: &[sig::Sig], t: &mut Tally, v: &mut Vec<Violation>) -> bool {
     let (class, call) = rpc::parse_call(c.call);
     let call = match (class, call) {
         (CallClass::Ok, Some(call)) => call,
@@ -28,16 +31,16 @@ fn judge(c: &Case, sigs: &[sig::Sig], t: &mut Tally, v: &mut Vec<Violation>) {
             if c.call.len() >= 16 && c.call[4..8] == [0, 0, 0, 0] && c.call[12..15] == [0, 1, 0x86] {
                 t.any(w);
             }
-            return;
+            return false;
         }
-        _ => return,
+        _ => return false,
     };
     if call.msg_type != 0 || !rpc::in_portmap_range(call.prog) || call.proc_ > 255 || call.rpcvers > 255 {
-        return; // not what the signature describes
+        return false; // not what the signature describes
     }
     if call.rpcvers != 2 {
         t.any("rpc-version-other-than-2");
-        return;
+        return false;
     }
     let want_sig = if c.tcp { "RPC:TCP" } else { "RPC:UDP" };
     let d = sig::decide(sigs, c.wire, !c.tcp);
@@ -51,12 +54,13 @@ fn judge(c: &Case, sigs: &[sig::Sig], t: &mut Tally, v: &mut Vec<Violation>) {
         });
     };
     match &d {
+        _ if c.later => {}
         Decision::Match { sig, .. } if sigs[*sig].name == want_sig => {}
         Decision::Match { .. } | Decision::Ambiguous => {
             t.any("leading-bytes-complete-another-signature");
-            return;
+            return false;
         }
-        _ => return,
+        _ => return false,
     }
     let exp = rpc::expected_reply(&call, &c.dst, c.dport);
     let kind = if call.vers < 2 || call.vers > 4 {
@@ -75,8 +79,9 @@ fn judge(c: &Case, sigs: &[sig::Sig], t: &mut Tally, v: &mut Vec<Violation>) {
     t.judged(
         Verdict::Reply,
         format!(
-            "{}|{}|cred{}|verf{}",
+            "{}{}|{}|cred{}|verf{}",
             c.carrier,
+            if c.later { "+later" } else { "" },
             kind,
             if call.cred.is_empty() { "0" } else if call.cred.len() % 4 == 0 { "4n" } else { "odd" },
             if call.verf.is_empty() { "0" } else { "n" }
@@ -88,6 +93,7 @@ fn judge(c: &Case, sigs: &[sig::Sig], t: &mut Tally, v: &mut Vec<Violation>) {
             // explain by wildcard shadowing if possible (known-finding classes)
             let sidx = sigs.iter().position(|s| s.name == want_sig).unwrap();
             let why = match sig::shadow_explanation(sigs, sidx, c.wire) {
+                _ if c.later => "later-call-on-the-connection".to_string(),
                 Some((pos, _byte, other)) => format!("shadowed@{}<-{}", pos, other.split(':').next().unwrap_or(other)),
                 None => "unexplained".to_string(),
             };
@@ -96,14 +102,14 @@ fn judge(c: &Case, sigs: &[sig::Sig], t: &mut Tally, v: &mut Vec<Violation>) {
                 format!("unanswered:{}:{}", want_sig, why),
                 format!("{} call (prog {}, vers {}, proc {}) over {} was not answered [{}]", kind, call.prog, call.vers, call.proc_, c.carrier, why),
             );
-            return;
+            return true;
         }
     };
     // framing over TCP
     let body: &[u8] = if c.tcp {
         if r.len() < 4 {
             bad("record-mark", "record-mark".into(), "reply shorter than a record mark".into());
-            return;
+            return true;
         }
         let rm = u32::from_be_bytes([r[0], r[1], r[2], r[3]]);
         if rm & 0x8000_0000 == 0 {
@@ -123,7 +129,7 @@ fn judge(c: &Case, sigs: &[sig::Sig], t: &mut Tally, v: &mut Vec<Violation>) {
         Some(rp) => rp,
         None => {
             bad("reply-header", "reply-header".into(), format!("reply of {} bytes is shorter than an accepted-reply header", body.len()));
-            return;
+            return true;
         }
     };
     if rp.xid != call.xid {
@@ -154,6 +160,7 @@ fn judge(c: &Case, sigs: &[sig::Sig], t: &mut Tally, v: &mut Vec<Violation>) {
             }
         }
     }
+    true
 }
 
 pub fn check(a: &Analysis, _aux: &mut Aux, t: &mut Tally) -> Vec<Violation> {
@@ -169,6 +176,7 @@ pub fn check(a: &Analysis, _aux: &mut Aux, t: &mut Tally) -> Vec<Violation> {
             dport: x.dport,
             carrier: format!("udp{}", if x.v6 { 6 } else { 4 }),
             idx: a.steps[x.si].idx,
+            later: false,
         };
         judge(&c, &sigs, t, &mut v);
     }
@@ -196,8 +204,42 @@ pub fn check(a: &Analysis, _aux: &mut Aux, t: &mut Tally) -> Vec<Violation> {
             dport: st.flow.dport,
             carrier: format!("tcp{}", if v6 { 6 } else { 4 }),
             idx: a.steps[s0.si].idx,
+            later: false,
         };
-        judge(&c, &sigs, t, &mut v);
+        if !judge(&c, &sigs, t, &mut v) {
+            continue;
+        }
+        // later calls on the same connection: each a complete record in one segment, as long as
+        // every message before it was a call the statement speaks about (so that the stream parser
+        // is at a record boundary by the statement alone)
+        for sg in st.segs.iter().skip(1) {
+            if sg.len == 0 {
+                continue;
+            }
+            let p = &st.stream[sg.off..sg.off + sg.len];
+            if p.len() < 32 {
+                break;
+            }
+            let rm = u32::from_be_bytes([p[0], p[1], p[2], p[3]]);
+            if rm & 0x8000_0000 == 0 || (rm & 0x7fff_ffff) as usize != p.len() - 4 {
+                break;
+            }
+            let c = Case {
+                call: &p[4..],
+                wire: p,
+                reply: sg.reply_app.as_deref(),
+                tcp: true,
+                dst: st.flow.dst,
+                dport: st.flow.dport,
+                carrier: format!("tcp{}", if v6 { 6 } else { 4 }),
+                idx: a.steps[sg.si].idx,
+                later: true,
+            };
+            t.probe("later-call-on-an-rpc-connection");
+            if !judge(&c, &sigs, t, &mut v) {
+                break;
+            }
+        }
     }
     v
 }
